@@ -131,10 +131,13 @@ AutoSucc(t, new) == IF t.t = "E" THEN {new} ELSE {InsertAt(t, p[1], p[2], new) :
 \*   | [k |-> "batch", items |-> <<[key, val, h], ...>>] | [k |-> "calc"] | [k |-> "reload"]
 \* loc: [k |-> "auto"] | [k |-> "root"] | [k |-> "leaf", key, side] (the leaf holding `key`)
 \*   | [k |-> "index0", side] (InsertLocation::Leaf{index: 0}: a leaf only in a one-leaf tree)
+\*   | [k |-> "freed", side] (InsertLocation::Leaf{index: i}, i a block that is not part of the tree: a freed
+\*     block, or the first index beyond the blob): not a leaf, the insert must fail
 LocOk(t, loc) == CASE loc.k = "auto" -> TRUE
                    [] loc.k = "root" -> t.t = "E"          \* UnableToInsertAsRootOfNonEmptyTree
                    [] loc.k = "index0" -> t.t = "L"        \* NodeNotALeaf / BlockIndexOutOfBounds
                    [] loc.k = "leaf" -> Has(t, loc.key)
+                   [] loc.k = "freed" -> FALSE
 DistinctSeq(s) == \A i, j \in DOMAIN s : i # j => s[i] # s[j]
 
 Guard(t, op) ==
